@@ -209,11 +209,21 @@ def parent_main(a):
     rdir = os.path.join(core.OUT, 'replays')
     os.makedirs(rdir, exist_ok=True)
     seen_keys = set()
+    foreign = []
     for v in merged['violations']:
         key = (v['property'], v['clause'], v['mech'])
         if key in seen_keys:
             continue
         seen_keys.add(key)
+        if v['property'] != a.id:
+            # an always-on law of ANOTHER property fired under this workload: it is
+            # reported (and kept as a replay file) but it does not decide THIS property
+            h = '%016x' % core.digest((key, v['case']))
+            path = os.path.join(rdir, f"{v['property']}-seen-by-{a.id}-{h}.json")
+            with open(path, 'w') as fh:
+                core.jdump(v, fh, indent=1)
+            foreign.append((v, path))
+            continue
         m = known.match(kf, v)
         if m:
             line = f"KNOWN-FINDING: property={v['property']} {m['id']} {m['mechanism']}"
@@ -238,10 +248,14 @@ def parent_main(a):
 
     wall = round(time.time() - t0, 2)
     if not a.no_evidence:
+        merged['foreign'] = [f"{v['property']}:{v['clause']}" for v, _ in foreign]
         write_evidence(evpath, a, mod, merged, wall, len(new_violations), known_lines, inconclusive)
 
     for line in known_lines:
         print(line)
+    for v, path in foreign[:10]:
+        print(f"ALSO-OBSERVED: law of property={v['property']} fired under the {a.id} workload "
+              f"(does not decide {a.id}) clause={v['clause']} replay={path}")
     summary = (f"{a.id} tier={a.tier} seed={a.seed} shards={shards} evaluations={merged['evaluations']} "
                f"distinct_nontrivial={merged['distinct_nontrivial']} wall={wall}s")
     if new_violations:
@@ -322,6 +336,7 @@ def write_evidence(path, a, mod, m, wall, nviol, known_lines, inconclusive):
         'max_steps_over_budget_ratio': m['max_step_ratio'],
         'audit_callbacks_inside_pure_calls': m['audit_seen'],
         'known_findings_seen': known_lines,
+        'other_properties_laws_fired': m.get('foreign', []),
         'inconclusive_reasons': inconclusive,
         'shards': len([1 for _ in range(1)]) and None,
         'notes': m['notes'],
